@@ -60,6 +60,12 @@ def ls_case_lit(cid, l):
             f"{qm(X)} {qm(P)}))")
 
 
+def reg_case_lit(cid, g):
+    xs = "[" + "; ".join(qt(x) for x in g["Xs"]) + "]"
+    facs = "[" + "; ".join(qm(f) for f in g["facs"]) + "]"
+    return (f"({cid}%nat, RegBlock (mkRg {xs} {qv(g['ys'])} {facs} {g['mode']}%nat {g['rank']}%nat {C.q(float(g['reg']))} {qm(g['xnew'])}))")
+
+
 def norm_case_lit(cid, n):
     facs = "[" + "; ".join(qm(f) for f in n["facs"]) + "]"
     facs2 = "[" + "; ".join(qm(f) for f in n["facs_impl"]) + "]"
@@ -169,6 +175,9 @@ class Capture:
                 cap.blocks.append(dict(k, G=an.T.copy(), xnew=rec["x"].T.copy(), kind="solve", cond=float(np.linalg.cond(an))))
             return x
         self._patch(tl, "solve", solve)
+        import tensorly.backend as tlb      # the regressors call the dispatched functions through `from .. import backend as T`
+        if getattr(tlb, "solve", None) is osolve:
+            self._patch(tlb, "solve", solve)
         olstsq = tl.lstsq
 
         def lstsq(a, b, *args, **kw):
@@ -181,6 +190,8 @@ class Capture:
             cap.lstsq.append(dict(A=an, Y=np.array(b, dtype=float), X=np.array(res[0], dtype=float)))
             return res
         self._patch(tl, "lstsq", lstsq)
+        if getattr(tlb, "lstsq", None) is olstsq:
+            self._patch(tlb, "lstsq", lstsq)
         ohals = _nn_cp.hals_nnls
 
         def hals(UtM, UtU, V=None, **kw):
@@ -257,16 +268,16 @@ def hals_objective(G, B, V, l1, l2):
 
 
 # ----------------------------------------------------------------------------- the runs
-BUDGET = {"quick": dict(cp=84, hals=36, ls=32, norm=12), "thorough": dict(cp=480, hals=220, ls=200, norm=80)}
+BUDGET = {"quick": dict(cp=84, hals=36, ls=32, norm=12, reg=8), "thorough": dict(cp=480, hals=220, ls=200, norm=80, reg=50)}
 
 
 class Ctx:
     def __init__(self, chk, rng, tier):
         self.chk, self.rng, self.tier = chk, rng, tier
-        self.cands = {"cp": [], "hals": [], "ls": [], "norm": []}     # candidates for the exact (Coq) block check
+        self.cands = {"cp": [], "hals": [], "ls": [], "norm": [], "reg": []}     # candidates for the exact (Coq) block check
         self.cases, self.meta = [], []
         self.skipped_illcond = 0
-        self.n_cp, self.n_hals, self.n_ls, self.n_norm = 0, 0, 0, 0
+        self.n_cp, self.n_hals, self.n_ls, self.n_norm, self.n_reg = 0, 0, 0, 0, 0
         self.raised, self.judged, self.attempts, self.raised_other = {}, {}, {}, {}
         self.py_blocks = 0
         self.mismatch_notes = 0
@@ -286,8 +297,7 @@ class Ctx:
         self.cands[kind].append((group, lit_fn, payload, descr))
 
     def select(self):
-        lits = {"cp": cp_case_lit, "hals": hals_case_lit, "ls": ls_case_lit}
-        for kind in ("cp", "hals", "ls", "norm"):
+        for kind in ("cp", "hals", "ls", "norm", "reg"):
             groups = {}
             for c in self.cands[kind]:
                 groups.setdefault(c[0], []).append(c)
@@ -307,6 +317,7 @@ class Ctx:
             if kind == "hals": self.n_hals = len(picked)
             if kind == "ls": self.n_ls = len(picked)
             if kind == "norm": self.n_norm = len(picked)
+            if kind == "reg": self.n_reg = len(picked)
 
 
 def attempt(ctx, entry):
@@ -476,7 +487,8 @@ def cp_objective_rel(X, w, facs, lam=0.0):
 
 
 PARAFAC_VARIANTS = ["plain", "normalize", "svd", "userinit", "l2", "linesearch", "fixed0", "normalize+userw", "linesearch+normalize",
-                    "l2+normalize", "linesearch+dense", "fixed0+normalize", "linesearch+dense", "l2+normalize+userw", "fixed01", "linesearch+dense+normalize"]
+                    "l2+normalize", "linesearch+dense", "fixed0+normalize", "linesearch+dense", "l2+normalize+userw", "fixed01", "linesearch+dense+normalize",
+                    "linesearch+dense", "linesearch+dense"]
 
 
 def run_parafac(ctx, n_runs):
@@ -717,6 +729,7 @@ def run_parafac2(ctx, n_runs):
         I, J, K, rank = rng.choice([3, 4]), rng.choice([4, 5]), rng.choice([3, 4]), rng.choice([1, 2, 2])
         variant = ["plain", "normalize", "linesearch", "nn", "normalize+linesearch", "nn+linesearch"][it % 6]
         nonneg = "nn" in variant
+        if "normalize" in variant: rank = 2     # with one component the weights are a common scale: nothing for the absorption to get wrong
         A = (r.rand(I, rank) + 0.3) * (1 if nonneg else r.choice([-1.0, 1.0], size=(I, rank)))
         Bm = r.rand(rank, rank) + np.eye(rank)
         Cm = (r.rand(K, rank) + 0.1) if nonneg else r.randn(K, rank)
@@ -724,7 +737,7 @@ def run_parafac2(ctx, n_runs):
         for i in range(I):
             P, _ = np.linalg.qr(r.randn(J, rank))
             S = (P @ Bm) @ np.diag(A[i]) @ Cm.T
-            slices.append(S + rng.choice([0.1, 0.4]) * np.linalg.norm(S) / math.sqrt(S.size) * r.randn(J, K))
+            slices.append(S + (0.35 if "normalize" in variant else rng.choice([0.1, 0.4])) * np.linalg.norm(S) / math.sqrt(S.size) * r.randn(J, K))
         ls = "linesearch" in variant
         kw = dict(tol=1e-300, init="random", random_state=r.randint(1 << 30), linesearch=ls, return_errors=True)
         if nonneg: kw["nn_modes"] = [0, 2]
@@ -785,7 +798,7 @@ def run_p2_linestep(ctx, n_runs):
         iteration = rng.choice([16, 36, 100])
         # jump = sqrt(iteration); the jumped point sits at jump*step of the way: < 2/(jump+1) lands closer to the solution than
         # the ALS iterate, slightly above it lands slightly farther (a sloppy acceptance test would let it through)
-        step = [0.6, 2.05, 1.5, 2.2, 2.5, 4.0][it % 6] / (math.sqrt(iteration) + 1.0)
+        step = [0.6, 2.05, 2.15, 2.3, 2.45, 1.5, 2.1, 2.2, 2.6, 4.0][it % 10] / (math.sqrt(iteration) + 1.0)
         cur = [l + step * (t - l) for l, t in zip(last, true)]
         weights = np.ones(rank)
         inputs = dict(shape=[I, J, K], rank=rank, variant="step%.1f" % step, slices=slices, factors=cur, factors_last=last, iteration=iteration, nn=nonneg)
@@ -897,6 +910,26 @@ def run_cmtf(ctx, n_runs):
                 ctx.py_blocks += 1
                 if not (oa <= ob + 1e-9 * (ob + float(np.sum(rec["Y"] ** 2)))):
                     chk.finding(entry, dict(inputs, block=j), f"least-squares block objective increases: {ob!r} -> {oa!r}", "C07_ls_block_minimises")
+            # the uncoupled blocks (modes 2 and 1) are CP-ALS blocks solved by lstsq on the Khatri-Rao design matrix: pushed through
+            # the CP block correspondence with G = kr'kr and MTTKRP = unfolded kr taken from the implementation's captured design
+            # matrix (so a wrong Khatri-Rao pairing shows up as a system mismatch); factors before the block = lstsq answers so far
+            n_it = len(cap.lstsq) // per
+            for _ in range(1 if ctx.tier == "quick" else 2):
+                t = rng.randrange(1, n_it)
+                F = [cap.lstsq[(t - 1) * per + 3]["X"].T.copy(), cap.lstsq[(t - 1) * per + 2]["X"].T.copy(), cap.lstsq[(t - 1) * per + 1]["X"].T.copy()]
+                if [f.shape[0] for f in F] != list(shape):
+                    break
+                for ii, slot in ((2, 1), (1, 2)):
+                    rec = cap.lstsq[t * per + slot]
+                    A_, Y_, sol = rec["A"], rec["Y"], rec["X"]
+                    if A_.shape[0] != Y_.shape[0] or sol.T.shape != F[ii].shape:
+                        break
+                    G_ = A_.T @ A_
+                    b = dict(X=X, w=np.ones(rank), facs=[f.copy() for f in F], mode=ii, M=Y_.T @ A_, G=G_, xnew=sol.T.copy(), kind="solve",
+                             cond=float(np.linalg.cond(G_)), lam=0.0, rank=rank, cert=True)
+                    if b["cond"] <= COND_MAX and (ctx.tier != "quick" or rng.random() < 0.6):
+                        ctx.add_case("cp", cp_case_lit, b, dict(entry=entry, inputs=dict(inputs, block=t * per + slot, mode=ii, kind="cmtf lstsq block")))
+                    F[ii] = sol.T.copy()
             for _ in range(1 if ctx.tier == "quick" else 3):
                 j = rng.randrange(per, len(cap.lstsq))
                 rec, before = cap.lstsq[j], cap.lstsq[j - per]
@@ -938,6 +971,8 @@ def run_regressors(ctx, n_runs):
                 raised(ctx, entry, out[1]); ok = False; break
             if nit == 3:
                 lscap = cap
+            if nit == 2 and kind == "cp":
+                W2 = [np.array(f, dtype=float) for f in est.cp_weight_[1]]
             if kind != "tucker":
                 w, W = est.cp_weight_
                 pen = sum(float(np.sum(np.asarray(f) ** 2)) for f in W)
@@ -955,6 +990,21 @@ def run_regressors(ctx, n_runs):
         ny = float(np.sum(y ** 2))
         hist = [math.sqrt((f + reg * p) / ny) for f, p in objs]
         history_check(ctx, entry, inputs, hist, what="ridge objective (prefix runs)")
+        # CP regressor, scalar responses: ridge block against the MODEL's design matrix (flattened MTTKRPs of the samples).
+        # State before block j of sweep 3 = factors after 2 sweeps (prefix run) with the answers of blocks 0..j-1 of sweep 3
+        if kind == "cp" and lscap is not None and len(lscap.solves) == 3 * len(dims):
+            nm, rk = len(dims), W2[0].shape[1]
+            W = [f.copy() for f in W2]
+            jpick = rng.randrange(nm)
+            for j in range(nm):
+                xj = lscap.solves[2 * nm + j]["x"]
+                if xj.size != W[j].size:
+                    break
+                xnew = xj.reshape(-1, rk)
+                if j == jpick or ctx.tier != "quick":
+                    ctx.add_case("reg", reg_case_lit, dict(Xs=[x for x in Xs], ys=y, facs=[f.copy() for f in W], mode=j, rank=rk, reg=reg, xnew=xnew),
+                                 dict(entry=entry, inputs=dict(inputs, block=j, kind="ridge block")))
+                W[j] = xnew
         # least-squares blocks (design matrix as exposed by the implementation's local variables, when available)
         if lscap is not None:
             recs = lscap.solves
@@ -972,8 +1022,8 @@ def run_regressors(ctx, n_runs):
 
 
 def PLAN(quick):
-    return [(run_parafac, 48 if quick else 400), (run_nn_hals, 18 if quick else 120), (run_hals_nnls, 36 if quick else 300),
-            (run_tucker, 18 if quick else 120), (run_parafac2, 15 if quick else 72), (run_p2_linestep, 12 if quick else 80), (run_tr_als, 12 if quick else 80),
+    return [(run_parafac, 54 if quick else 396), (run_nn_hals, 18 if quick else 120), (run_hals_nnls, 36 if quick else 300),
+            (run_tucker, 18 if quick else 120), (run_parafac2, 18 if quick else 72), (run_p2_linestep, 30 if quick else 120), (run_tr_als, 12 if quick else 80),
             (run_cmtf, 12 if quick else 80), (run_regressors, 12 if quick else 60)]
 
 
@@ -994,7 +1044,7 @@ def run(chk):
     chk.checker_cmds.append("coqc (vm_compute, Qops) on generated build/cases/C07/*.v: Corr.C07.failing")
     chk.cov["traces_validated_against_impl"] = n_eval
     chk.cov["exhaustive"] = False
-    chk.cov["block_cases"] = dict(cp_blocks=ctx.n_cp, hals_chains=ctx.n_hals, ls_blocks=ctx.n_ls, normalisations=ctx.n_norm, float_block_predicates=ctx.py_blocks,
+    chk.cov["block_cases"] = dict(cp_blocks=ctx.n_cp, hals_chains=ctx.n_hals, ls_blocks=ctx.n_ls, normalisations=ctx.n_norm, regressor_blocks=ctx.n_reg, float_block_predicates=ctx.py_blocks,
                                   candidates={k: len(v) for k, v in ctx.cands.items()})
     chk.cov["skipped_ill_conditioned"] = ctx.skipped_illcond
     chk.cov["rule"] = ("seeded well-conditioned problems (low rank + noise; dense / nearly collinear ones for the line search), orders 2-4, rank 1-3: every algorithm "
@@ -1018,7 +1068,7 @@ def run(chk):
         chk.disagreement(f"corr:C07 {kind} block (Model/Descent.v vs {descr['entry']})", dict(kind=kind, **descr))
         # turn the disagreement into a failing input: the run whose captured block disagrees with the model
         inp = dict(descr["inputs"]); inp["block_kind"] = kind
-        for k in ("G", "B", "A", "Y", "X", "M", "xnew", "w", "facs", "iterates", "mode", "lam", "prev", "l1", "l2", "eps", "tape", "w_impl", "facs_impl"):
+        for k in ("G", "B", "A", "Y", "X", "M", "xnew", "w", "facs", "iterates", "mode", "lam", "prev", "l1", "l2", "eps", "tape", "w_impl", "facs_impl", "Xs", "ys", "reg"):
             if k in payload and k not in inp:
                 inp["block_" + k] = payload[k]
         chk.finding(descr["entry"], inp, f"{kind} block: the implementation's block state disagrees with the exact model block "
